@@ -35,6 +35,8 @@ JudgeCluster(r) ==
   IF Len(all) # Len(r.input) \/ BagOf(all) # BagOf(r.input) THEN "not-a-partition"
   ELSE IF \E k \in 1..Len(r.clusters) : Len(r.clusters[k].ids) < 13 THEN "small-cluster"
   ELSE IF \E k \in 1..Len(r.clusters) : ~WitnessOk(r.clusters[k]) THEN "not-connected"
+  \* the same points clustered again here and on another thread gave the same ordered result (C11)
+  ELSE IF "repeat" \in DOMAIN r /\ r.repeat # 1 THEN "not-repeatable"
   ELSE "fine"
 
 JudgeVertex(r) ==
